@@ -40,8 +40,18 @@ using std::endl;
 using std::ostringstream;
 using std::stringstream;
 
-static const std::string prefix_labels[] = {"", "const ", "urgent ", "", "broadcast ", "", "urgent broadcast ",
-                                            "", "meta "};
+static const std::string& prefix_label(ParserBuilder::PREFIX prefix)
+{
+    static const std::string labels[] = {"", "const ", "urgent ", "", "broadcast ", "", "urgent broadcast ",
+                                         "", "meta "};
+    static const std::string hybrid = "hybrid ";
+    static const std::string none;
+    if (prefix == ParserBuilder::PREFIX_HYBRID)
+        return hybrid;
+    if (static_cast<size_t>(prefix) < sizeof(labels) / sizeof(labels[0]))
+        return labels[prefix];
+    return none;
+}
 
 void PrettyPrinter::indent()
 {
@@ -80,13 +90,13 @@ void PrettyPrinter::type_duplicate() { type.push(type.top()); }
 
 void PrettyPrinter::type_pop() { type.pop(); }
 
-void PrettyPrinter::type_bool(PREFIX prefix) { type.push(prefix_labels[prefix] + "bool"); }
+void PrettyPrinter::type_bool(PREFIX prefix) { type.push(prefix_label(prefix) + "bool"); }
 
-void PrettyPrinter::type_int(PREFIX prefix) { type.push(prefix_labels[prefix] + "int"); }
+void PrettyPrinter::type_int(PREFIX prefix) { type.push(prefix_label(prefix) + "int"); }
 
-void PrettyPrinter::type_string(PREFIX prefix) { type.push(prefix_labels[prefix] + "string"); }
+void PrettyPrinter::type_string(PREFIX prefix) { type.push(prefix_label(prefix) + "string"); }
 
-void PrettyPrinter::type_double(PREFIX prefix) { type.push(prefix_labels[prefix] + "double"); }
+void PrettyPrinter::type_double(PREFIX prefix) { type.push(prefix_label(prefix) + "double"); }
 
 void PrettyPrinter::type_bounded_int(PREFIX prefix)
 {
@@ -95,12 +105,12 @@ void PrettyPrinter::type_bounded_int(PREFIX prefix)
     st.pop_back();
     l = st.back();
     st.pop_back();
-    type.push(prefix_labels[prefix] + "int[" + l + "," + u + "]");
+    type.push(prefix_label(prefix) + "int[" + l + "," + u + "]");
 }
 
-void PrettyPrinter::type_channel(PREFIX prefix) { type.push(string(prefix_labels[prefix]) + "chan"); }
+void PrettyPrinter::type_channel(PREFIX prefix) { type.push(prefix_label(prefix) + "chan"); }
 
-void PrettyPrinter::type_clock(PREFIX prefix) { type.push(string(prefix_labels[prefix]) + "clock"); }
+void PrettyPrinter::type_clock(PREFIX prefix) { type.push(prefix_label(prefix) + "clock"); }
 
 void PrettyPrinter::type_void() { type.push("void"); }
 
@@ -109,10 +119,10 @@ void PrettyPrinter::type_scalar(PREFIX prefix)
     string size = st.back();
     st.pop_back();
     string res;
-    type.push(prefix_labels[prefix] + "scalar[" + size + "]");
+    type.push(prefix_label(prefix) + "scalar[" + size + "]");
 }
 
-void PrettyPrinter::type_name(PREFIX prefix, const char* name) { type.push(prefix_labels[prefix] + name); }
+void PrettyPrinter::type_name(PREFIX prefix, const char* name) { type.push(prefix_label(prefix) + name); }
 
 void PrettyPrinter::type_array_of_size(size_t n)
 {
@@ -128,7 +138,7 @@ void PrettyPrinter::type_array_of_type(size_t n)
 void PrettyPrinter::type_struct(PREFIX prefix, uint32_t n)
 {
     stringstream ss;
-    ss << prefix_labels[prefix];
+    ss << prefix_label(prefix);
     ss << "struct {\n";
     assert(fields.size() >= n);
     for (auto i = std::next(fields.begin(), fields.size() - n), e = fields.end(); i != e; ++i)
